@@ -596,3 +596,32 @@ def ret_operands(fn, ok_only=True):
         else:
             ops += rv_operands(ex['rv'])
     return ops
+
+
+def reachable_fns(F, roots, through_closures=True):
+    """local functions reachable from `roots` over resolved local call edges (+ closures created inside)"""
+    seen = {}
+    st = list(roots)
+    while st:
+        f = st.pop()
+        if f.path in seen:
+            continue
+        seen[f.path] = f
+        for c in f.calls():
+            lc = c.local_callee
+            if lc and lc in F.fns and lc not in seen:
+                st.append(F.fns[lc])
+            elif not lc and c.t.get('trait') and c.t.get('decl_local'):
+                # unresolved local trait method: every local impl of that method
+                for g in F.by_name.get(c.name, ()):
+                    if g.r.get('impl_trait') == c.t['trait'] and g.path not in seen:
+                        st.append(g)
+        if through_closures:
+            for cl in F.closures_of(f):
+                if cl.path not in seen:
+                    st.append(cl)
+    return seen
+
+
+def api_roots(F, impl_self_suffix='::Memvid'):
+    return [f for f in F.fns.values() if f.r.get('exported') and f.r.get('pub') and f.r.get('impl_self', '').endswith(impl_self_suffix)]
